@@ -226,21 +226,27 @@ type diff struct {
 func compare(sc *scenario, r *hsreal.Result) *diff {
 	e := sc.Exp
 	C, S := &r.C, &r.S
-	// which dimension can be responsible for a wrong success / failure
+	// Which policy dimension a wrong success / failure / hang is attributed to (it
+	// decides which keys the signature carries): a dimension is "interesting" when
+	// its two levels conflict, when it is demanded without a usable common member,
+	// or when the common members include names cedar cannot run.
 	field := func() string {
-		a := sc.Cfg.C.Auth + "/" + sc.Cfg.S.Auth
-		_ = a
+		conflict := func(a, b string) bool {
+			return (a == "REQUIRED" && b == "NEVER") || (a == "NEVER" && b == "REQUIRED")
+		}
 		mc := hsreal.MethodClass(sc.Cfg.C.Methods, sc.Cfg.S.Methods)
 		cc := hsreal.CipherClass(sc.Cfg.C.Ciphers, sc.Cfg.S.Ciphers)
-		authOdd := mc != "usable" && mc != "nocommon"
-		encOdd := cc != "aes" && cc != "nocommon"
+		authI := conflict(sc.Cfg.C.Auth, sc.Cfg.S.Auth) || (mc != "usable" && mc != "nocommon") || (e.Auth == "yes" && e.Method == "NONE")
+		encI := conflict(sc.Cfg.C.Enc, sc.Cfg.S.Enc) || (cc != "aes" && cc != "nocommon") || (e.Enc == "yes" && e.Cipher == "NONE")
 		switch {
-		case authOdd && !encOdd:
+		case sc.BName != "TOKEN":
 			return "auth"
-		case encOdd && !authOdd:
+		case authI && encI:
+			return "both"
+		case encI:
 			return "enc"
 		}
-		return "both"
+		return "auth"
 	}
 	if C.TimedOut || S.TimedOut {
 		return &diff{"FailsExactlyWhen", "hangs", field(), fmt.Sprintf("handshake hangs until the deadline: client=%q server=%q (model: ok=%v)", C.Err, S.Err, e.OK)}
@@ -417,7 +423,7 @@ func replay(c *core.Ctx, env *hsreal.Env, scs []*scenario, st *stats) {
 		st.bySig[ss]++
 		n := st.bySig[ss]
 		st.mu.Unlock()
-		if n > 2 { // keep two examples per signature
+		if n > 1 { // one recorded example per signature
 			return
 		}
 		c.Fail(core.Failure{Signature: sig,
@@ -460,13 +466,21 @@ func run(c *core.Ctx) {
 	if replayFile(c, env) {
 		return
 	}
-	// 1. TLC: invariants over the whole product (runs while the replay proceeds)
+	// 1. TLC: invariants over the whole product, every interleaving; one TLC process
+	// per client authentication level (runs while generation and replay proceed)
+	mcCfg := "MC_C10_quick.cfg"
+	if c.Thorough() {
+		mcCfg = "MC_C10.cfg"
+	}
 	var wg sync.WaitGroup
-	wg.Add(1)
-	go func() {
-		defer wg.Done()
-		kit.ModelCheck(c, "Handshake.tla", "MC_C10.cfg", tlc.Options{Workers: 16, Timeout: 15 * time.Minute})
-	}()
+	for _, lv := range levels {
+		wg.Add(1)
+		go func(lv string) {
+			defer wg.Done()
+			kit.ModelCheck(c, "Gen_Handshake.tla", mcCfg, tlc.Options{Workers: 4, Timeout: 20 * time.Minute,
+				Env: []string{"C10_CAUTH=" + lv, "C10_SAUTH=*", "C10_ROWS=" + filepath.Join(c.Tmp, "c10-rows.ndjson")}})
+		}(lv)
+	}
 	defer wg.Wait()
 
 	// 2. TLC: expectations for the configurations to replay
